@@ -27,6 +27,10 @@ def class_funcs(ctx, mod, cls):
 
 
 def run(ctx):
+    ctx.rule('C20', lambda: _run(ctx))
+
+
+def _run(ctx):
     ctx.repo.cls('ctl', 'Notifications')
     funcs = class_funcs(ctx, 'ctl', 'Notifications')
     mn = ctx.func('ctl', 'Notifications._maybe_notify')
